@@ -154,20 +154,143 @@ Proof.
   - apply key_part_app_inj in H. destruct H as [-> H]. f_equal. auto.
 Qed.
 
-Lemma tuple_key_inj : forall g a b, length a = length b -> tuple_key g a = tuple_key g b -> a = b.
-Proof.
-  intros g a b L H. destruct a as [|v a], b as [|w b]; try discriminate L; auto.
-  unfold tuple_key in H. apply enc_tuple_inj. exact H.
-Qed.
-
 Lemma ktuple_of_length : forall r, length (ktuple_of r) = length (kvals r).
 Proof. intro r. unfold ktuple_of. apply map_length. Qed.
 
-Lemma win_key_iff : forall g r1 r2, length (kvals r1) = length (kvals r2) ->
+(* ---- the escaping encoder of the window sites ------------------------------------------------
+   well-escaped text: every '|' and every backslash is the second byte of a pair that starts with a backslash;
+   so a bare '|' never occurs *)
+Inductive wesc : bytes -> Prop :=
+| wesc_nil : wesc []
+| wesc_plain : forall c l, c <> k_bslash -> c <> k_bar -> wesc l -> wesc (c :: l)
+| wesc_pair : forall c l, wesc l -> wesc (k_bslash :: c :: l).
+
+Lemma esc_wesc : forall s, wesc (k_esc s).
+Proof.
+  induction s as [|c s IH]; simpl; [constructor|].
+  destruct (N.eqb c k_bslash) eqn:E1; simpl.
+  - apply wesc_pair. exact IH.
+  - destruct (N.eqb c k_bar) eqn:E2; simpl.
+    + apply wesc_pair. exact IH.
+    + apply N.eqb_neq in E1. apply N.eqb_neq in E2. apply wesc_plain; auto.
+Qed.
+
+Lemma col_wesc : forall v, wesc (k_col_text v).
+Proof.
+  destruct v as [|s|z|t|[|]]; simpl; try apply esc_wesc.
+  - apply wesc_pair. constructor.
+  - repeat (apply wesc_plain; [unfold k_bslash; discriminate|unfold k_bar; discriminate|]). constructor.
+  - repeat (apply wesc_plain; [unfold k_bslash; discriminate|unfold k_bar; discriminate|]). constructor.
+Qed.
+
+(* the first bare '|' after a well-escaped text is the column boundary *)
+Lemma wesc_split : forall a, wesc a -> forall a' r r', wesc a' ->
+  a ++ k_bar :: r = a' ++ k_bar :: r' -> a = a' /\ r = r'.
+Proof.
+  induction 1 as [|c l Hc1 Hc2 Hl IH|c l Hl IH]; intros a' r r' Ha' H.
+  - inversion Ha' as [|c' l' Hd1 Hd2 Hl'|c' l' Hl']; subst; simpl in H.
+    + injection H as ->. auto.
+    + injection H as Hc _. congruence.
+    + discriminate H.
+  - inversion Ha' as [|c' l' Hd1 Hd2 Hl'|c' l' Hl']; subst; simpl in H.
+    + injection H as Hc _. congruence.
+    + injection H as -> H. destruct (IH _ _ _ Hl' H) as [-> ->]. auto.
+    + injection H as Hc _. congruence.
+  - inversion Ha' as [|c' l' Hd1 Hd2 Hl'|c' l' Hl']; subst; simpl in H.
+    + discriminate H.
+    + injection H as Hc _. congruence.
+    + injection H as -> H. destruct (IH _ _ _ Hl' H) as [-> ->]. auto.
+Qed.
+
+Lemma esc_inj : forall s s', k_esc s = k_esc s' -> s = s'.
+Proof.
+  induction s as [|c s IH]; destruct s' as [|c' s']; simpl; intro H.
+  - reflexivity.
+  - destruct (N.eqb c' k_bslash || N.eqb c' k_bar); discriminate H.
+  - destruct (N.eqb c k_bslash || N.eqb c k_bar); discriminate H.
+  - destruct (N.eqb c k_bslash || N.eqb c k_bar) eqn:E; destruct (N.eqb c' k_bslash || N.eqb c' k_bar) eqn:E'.
+    + injection H as -> H. f_equal. auto.
+    + injection H as Hc _. subst c'. rewrite N.eqb_refl in E'. discriminate E'.
+    + injection H as Hc _. subst c. rewrite N.eqb_refl in E. discriminate E.
+    + injection H as -> H. f_equal. auto.
+Qed.
+
+(* no escaped text is the NULL marker: after a backslash comes a backslash or a '|', never 'N' *)
+Lemma esc_not_null : forall s, k_esc s <> k_null_mark.
+Proof.
+  intros s H. destruct s as [|c s]; simpl in H; [discriminate H|].
+  destruct (N.eqb c k_bslash) eqn:E1; simpl in H.
+  - apply N.eqb_eq in E1. subst c. discriminate H.
+  - destruct (N.eqb c k_bar) eqn:E2; simpl in H.
+    + apply N.eqb_eq in E2. subst c. discriminate H.
+    + injection H as Hc _. subst c. discriminate E1.
+Qed.
+
+(* two values of one column: both NULL-or-of-the-column's-kind *)
+Definition same_kind (v w : kvalue) : Prop := exists k, of_kind k v /\ of_kind k w.
+
+Lemma col_text_inj : forall v w, same_kind v w -> k_col_text v = k_col_text w -> v = w.
+Proof.
+  intros v w [k [Hv Hw]] H.
+  destruct v as [|s|z|t|b], w as [|s'|z'|t'|b']; destruct k; simpl in Hv, Hw; try contradiction;
+    simpl in H; try reflexivity;
+    try (exfalso; eapply esc_not_null; eassumption);
+    try (exfalso; eapply esc_not_null; symmetry; eassumption).
+  all: try (apply esc_inj in H; try apply dec_Z_inj in H; congruence).
+  all: try (destruct b; discriminate H).
+  all: try (destruct b'; discriminate H).
+  destruct b, b'; try reflexivity; discriminate H.
+Qed.
+
+Lemma enc_win_inj : forall a b, Forall2 same_kind a b -> enc_win a = enc_win b -> a = b.
+Proof.
+  unfold enc_win. induction 1 as [|x y a b Hxy Hab IH]; intro H; [reflexivity|].
+  inversion Hab as [|x2 y2 a2 b2 Hxy2 Hab2]; subst.
+  - simpl in H. f_equal. apply col_text_inj; auto.
+  - change (k_col_text x ++ k_bar :: k_join_bar (map k_col_text (x2 :: a2))
+            = k_col_text y ++ k_bar :: k_join_bar (map k_col_text (y2 :: b2))) in H.
+    apply wesc_split in H; try apply col_wesc.
+    destruct H as [H1 H2]. f_equal; [apply col_text_inj; auto|apply IH; exact H2].
+Qed.
+
+Lemma Forall_same_kind : forall k a b,
+  Forall (fun v => of_kind k v) a -> Forall (fun v => of_kind k v) b -> length a = length b ->
+  Forall2 same_kind a b.
+Proof.
+  induction a as [|x a IH]; destruct b as [|y b]; intros Ha Hb L; try discriminate L; [constructor|].
+  inversion Ha; inversion Hb; subst. injection L as L.
+  constructor; [exists k; auto|apply IH; auto].
+Qed.
+
+(* all columns strings-or-NULL (any bytes), resp. numbers-or-NULL *)
+Lemma enc_win_inj_strings : forall a b,
+  Forall (fun v => of_kind KdStr v) a -> Forall (fun v => of_kind KdStr v) b -> length a = length b ->
+  enc_win a = enc_win b -> a = b.
+Proof. intros a b Ha Hb L. apply enc_win_inj. eapply Forall_same_kind; eauto. Qed.
+
+Lemma enc_win_inj_numbers : forall a b,
+  Forall (fun v => of_kind KdInt v) a -> Forall (fun v => of_kind KdInt v) b -> length a = length b ->
+  enc_win a = enc_win b -> a = b.
+Proof. intros a b Ha Hb L. apply enc_win_inj. eapply Forall_same_kind; eauto. Qed.
+
+Lemma conforms_same_kind : forall sch a b, conforms sch a -> conforms sch b -> Forall2 same_kind a b.
+Proof.
+  unfold conforms. induction sch as [|k sch IH]; intros a b Ha Hb; inversion Ha; inversion Hb; subst.
+  - constructor.
+  - constructor; [exists k; auto|apply IH; auto].
+Qed.
+
+Lemma tuple_key_inj : forall g a b, Forall2 same_kind a b -> tuple_key g a = tuple_key g b -> a = b.
+Proof.
+  intros g a b F H. inversion F; subst; [reflexivity|].
+  unfold tuple_key in H. apply enc_win_inj; auto.
+Qed.
+
+Lemma win_key_iff : forall g sch r1 r2, conforms sch (ktuple_of r1) -> conforms sch (ktuple_of r2) ->
   (win_key g r1 = win_key g r2 <-> ktuple_of r1 = ktuple_of r2).
 Proof.
-  intros g r1 r2 L. unfold win_key. split.
-  - apply tuple_key_inj. rewrite !ktuple_of_length. exact L.
+  intros g sch r1 r2 C1 C2. unfold win_key. split.
+  - apply tuple_key_inj. eapply conforms_same_kind; eauto.
   - intros ->. reflexivity.
 Qed.
 
@@ -355,20 +478,20 @@ Proof.
   - apply Forall_forall. auto.
 Qed.
 
-(* the per-key maps of the keyed windows (sessions, global groups, counting buffers): rows of
-   one query all carry the same number of grouping columns *)
-Theorem group_partition_win : forall g c rows,
-  Forall (fun r => length (kvals r) = c) rows ->
+(* the per-key maps of the keyed windows (sessions, global groups, counting buffers): the rows of
+   one query conform to one schema (same number of grouping columns, one scalar type per column) *)
+Theorem group_partition_win : forall g sch rows,
+  Forall (fun r => conforms sch (ktuple_of r)) rows ->
   let res := kgroup_by (win_key g) rows in
   NoDup (map fst res)
   /\ (forall t, In t (map fst res) <-> exists r, In r rows /\ ktuple_of r = t)
   /\ (forall t rs, In (t, rs) res ->
         rs = filter (fun r => ktuple_eqb (ktuple_of r) t) rows /\ rs <> []).
 Proof.
-  intros g c rows HC.
-  apply (group_by_partition (tuple_key g) (fun t => length t = c)).
-  - intros a b Ha Hb. apply tuple_key_inj. congruence.
-  - eapply Forall_impl; [|exact HC]. intros r Hr. simpl. rewrite ktuple_of_length. exact Hr.
+  intros g sch rows HC.
+  apply (group_by_partition (tuple_key g) (conforms sch)).
+  - intros a b Ha Hb. apply tuple_key_inj. eapply conforms_same_kind; eauto.
+  - exact HC.
 Qed.
 
 (* output naming: the i-th grouping value is reported under the i-th output name *)
